@@ -171,7 +171,7 @@ func init() {
 			if tier == "thorough" {
 				return "all paths of depth <= 2 over every item position with 5 node types; paths of depth 3 whose steps range over the walked properties plus 4 control positions (node types Object/Activity)"
 			}
-			return "paths of depth <= 2 over every item position, 3 node types"
+			return "paths of depth <= 2 over every item position, 3 node types; chains of depth 4/6/9/20/40/70 along every walked property; lists of 17/33/65 members (carriers with 40 bto and 70 bcc entries, three identities occurring twice) in every walked position"
 		},
 		DeadlineQuick: 5 * time.Minute,
 		Run:           c11Run,
@@ -324,6 +324,98 @@ func c11Run(c *engine.Ctx) {
 	}
 	// every vocabulary type name of every host struct (some Clean/Recipients logic depends on the type name, e.g. Block), with the
 	// host's own object / actor / first walked item also mentioned by id in to, cc and audience: Clean() must leave those alone
+	// scale: long chains along one walked property, and long lists of carriers (with long private lists) in walked positions
+	for _, h := range hosts {
+		h := h
+		for _, term := range c11WalkedTerms(h.Name) {
+			f := h.FieldByTerm(term)
+			if f == nil {
+				continue
+			}
+			for _, depth := range []int{4, 6, 9, 20, 40, 70} {
+				var steps []c11Step
+				cur := h
+				ok := true
+				for d := 0; d < depth; d++ {
+					cf := cur.FieldByTerm(term)
+					if cf == nil {
+						ok = false
+						break
+					}
+					nt := []string{"Object", "Activity", "Actor"}[d%3]
+					steps = append(steps, c11Step{field: *cf, inList: []int{0, 2, 1}[d%3], node: nt})
+					if cf.Kind == universe.KItems && steps[d].inList == 0 {
+						steps[d].inList = 3
+					}
+					cur = universe.ByName(nt)
+				}
+				if ok {
+					c11Case(c, h, steps)
+				}
+			}
+			for _, N := range []int{17, 33, 65} {
+				N, f := N, *f
+				class := "C11|clean|" + h.Name
+				c.Do(class, func() string {
+					return fmt.Sprintf("*%s . %s = list of %d members (carriers with 40 bto / 70 bcc entries alternating with IRIs) ; Clean()", h.Name, f.Term, N)
+				}, func(t *engine.T) {
+					g := &universe.Gen{}
+					carrier := func(s *universe.Struct) reflect.Value {
+						p := universe.Embedded(s, g, true, true)
+						c11Private(g, p)
+						var bto, bcc ap.ItemCollection
+						for i := 0; i < 40; i++ {
+							bto = append(bto, g.IRI())
+						}
+						for i := 0; i < 70; i++ {
+							bcc = append(bcc, g.IRI())
+						}
+						p.Elem().FieldByName("Bto").Set(reflect.ValueOf(bto))
+						p.Elem().FieldByName("BCC").Set(reflect.ValueOf(bcc))
+						return p
+					}
+					root := carrier(h)
+					col := make(ap.ItemCollection, N)
+					for i := range col {
+						if i%2 == 0 || i == N-1 {
+							col[i] = carrier(universe.ByName([]string{"Object", "Activity", "Actor"}[i%3])).Interface().(ap.Item)
+						} else {
+							col[i] = g.IRI()
+						}
+					}
+					// the same identity more than once: member 4 is a second object with the id of member 0, member 6 is the
+					// object whose id member 1 names, the last member is a second object with the id of member 2
+					sameID := func(dst, src int) {
+						var id ap.IRI
+						if iri, ok := col[src].(ap.IRI); ok {
+							id = iri
+						} else {
+							id = col[src].GetLink()
+						}
+						reflect.ValueOf(col[dst]).Elem().FieldByName("ID").Set(reflect.ValueOf(id))
+					}
+					sameID(4, 0)
+					sameID(6, 1)
+					sameID(N-1, 2)
+					root.Elem().Field(f.Index).Set(reflect.ValueOf(col))
+					v := root.Interface()
+					before := canon.Of(v, canon.Raw)
+					want, _ := c11Expect(before)
+					t.State(engine.Hash64("c11long", before.String()), true)
+					v.(ap.HasRecipients).Clean()
+					t.Ops(1)
+					for _, d := range canon.Diff(want, canon.Of(v, canon.Raw)) {
+						term := canon.LastTerm(d.Path)
+						what := "other-property-" + d.Symptom
+						if (term == "bto" || term == "bcc") && d.Symptom == "invented" {
+							what = "private-recipients-left"
+						}
+						t.Fail(fmt.Sprintf("C11|clean|%s|%s|long-list|%s", h.Name, term, what), "%s at %s (list of %d)", d, d.Path, N)
+					}
+				})
+			}
+		}
+	}
 	var vocabNames []string
 	for n := range c07Vocabulary {
 		vocabNames = append(vocabNames, n)
